@@ -160,6 +160,16 @@ example : srcAtomsL (some "i") (.bin .add (.idx "y" (.ref "i")) (.ref "x")) = [.
     srcAtomsL none (.bin .add (.idx "y" (.lit 2)) (.ref "x")) = [.var "y", .var "x"] := by
   constructor <;> decide
 
+-- a duration that depends on a disallowed symbol only through a condition, a comparison or a
+-- rounding / sign function is rejected all the same: the check is about occurrence, not about derivatives
+example : verdict ⟨fun n => if n = "p" then some .param else if n = "x" then some .state else none, fun _ => false⟩
+    (translate [] [.eq (.ref "z") (.delay 0 (.ref "x")
+        (.ite (.bin .gt (.ref "x") (.lit 0)) (.ref "p") (.bin .mul (.lit 2) (.ref "p"))))]) = .reject ∧
+    verdict ⟨fun n => if n = "p" then some .param else none, fun _ => false⟩
+    (translate [] [.eq (.ref "z") (.delay 0 (.ref "x") (.bin .add (.un .floor .time) (.lit 1)))]) = .reject ∧
+    verdict ⟨fun n => if n = "p" then some .param else none, fun _ => false⟩
+    (translate [] [.eq (.ref "z") (.delay 0 (.ref "x") (.un .ceil (.ref "p")))]) = .accept := by decide
+
 /-- The defect behind C22-F2, proved on the model of the code as it is: a loop-indexed delayed
     expression that mentions a scalar (`u`) occurring nowhere else in the loop body trips the
     `assert` of `exitForEquation`, although its duration `p` is a parameter. -/
@@ -224,7 +234,7 @@ theorem postcheck_invariant_under_substitution (c : Cats) (σ : String → Optio
   exact key args (fun _ h => h)
 
 example : SubstOk ⟨fun n => if n = "d" ∨ n = "w" then some .alg else none, fun _ => false⟩ none
-    (fun n => if n = "d" then some (.neg (.ref "w")) else none) (fun n => n == "d") := by
+    (fun n => if n = "d" then some (.un .neg (.ref "w")) else none) (fun n => n == "d") := by
   refine ⟨?_, ?_, ?_, ?_⟩
   · intro n; by_cases h : n = "d" <;> simp [h]
   · intro n e h
